@@ -354,7 +354,14 @@ fn ct_text(t: CT) -> &'static str {
 
 /// all patterns of type `t` with constructor nesting ≤ `d`; `$` stands for a fresh variable
 fn pats(t: CT, d: usize) -> Vec<String> {
-    let mut v = vec!["_".to_string(), "$".to_string()];
+    // `$b` / `$i` / `$s` / `$o`: a fresh variable of type bool / int8 / string / anything else
+    let var = match t {
+        CT::Bool => "$b",
+        CT::I8 => "$i",
+        CT::Str => "$s",
+        _ => "$o",
+    };
+    let mut v = vec!["_".to_string(), var.to_string()];
     let sub = |t: CT| -> Vec<String> { if d == 0 { vec![] } else { pats(t, d - 1) } };
     match t {
         CT::Bool => v.extend(["true", "false"].map(String::from)),
@@ -405,12 +412,103 @@ fn pats(t: CT, d: usize) -> Vec<String> {
 
 fn fresh_vars(p: &str, k: &mut usize) -> String {
     let mut s = String::new();
-    for c in p.chars() {
+    let mut it = p.chars();
+    while let Some(c) = it.next() {
         if c == '$' {
-            write!(s, "v{}", *k).unwrap();
+            let tag = it.next().unwrap_or('o');
+            write!(s, "v{}{}", tag, *k).unwrap();
             *k += 1;
         } else {
             s.push(c);
+        }
+    }
+    s
+}
+
+/// printable variables (`vb3`, `vi4`, `vs5`) of a rendered pattern, with the conversion to string
+fn printable_vars(p: &str) -> Vec<String> {
+    let cs: Vec<char> = p.chars().collect();
+    let mut out = Vec::new();
+    let mut i = 0;
+    while i < cs.len() {
+        let boundary = i == 0 || !(cs[i - 1].is_alphanumeric() || cs[i - 1] == '_');
+        if boundary && cs[i] == 'v' && i + 2 < cs.len() + 1 && i + 1 < cs.len() && "bis".contains(cs[i + 1]) {
+            let mut j = i + 2;
+            while j < cs.len() && cs[j].is_ascii_digit() {
+                j += 1;
+            }
+            if j > i + 2 {
+                let name: String = cs[i..j].iter().collect();
+                out.push(match cs[i + 1] {
+                    'b' => format!("bool_to_string({})", name),
+                    'i' => format!("int8_to_string({})", name),
+                    _ => name,
+                });
+                i = j;
+                continue;
+            }
+        }
+        i += 1;
+    }
+    out
+}
+
+fn values(t: CT) -> Vec<&'static str> {
+    match t {
+        CT::Bool => vec!["true", "false"],
+        CT::I8 => vec!["0i8", "1i8", "2i8"],
+        CT::Str => vec!["\"a\"", "\"b\"", "\"c\""],
+        CT::Unit => vec!["()"],
+        CT::E2 => vec!["X", "Y"],
+        CT::E => vec!["A", "B(true)", "B(false)", "C(X, true)", "C(Y, false)", "C(X, false)", "C(Y, true)"],
+        CT::OptB => vec!["Non", "Som(true)", "Som(false)"],
+        CT::OptE2 => vec!["Non", "Som(X)", "Som(Y)"],
+        CT::Tup => vec!["(true, 0i8)", "(false, 1i8)", "(true, 2i8)", "(false, 0i8)", "(true, 1i8)"],
+        CT::S => vec!["S { a: true, b: 0i8 }", "S { a: false, b: 1i8 }", "S { a: true, b: 2i8 }", "S { a: false, b: 0i8 }", "S { a: true, b: 1i8 }"],
+    }
+}
+
+/// a runnable function for the whole-pipeline stream: every arm prints its index and the
+/// printable variables it bound; `total` appends a catch-all so that the run never stops early
+fn render_runnable(name: &str, m: &Matrix, total: bool) -> String {
+    let mut s = String::new();
+    let params: Vec<String> = m.cols.iter().enumerate().map(|(i, t)| format!("s{}: {}", i, ct_text(*t))).collect();
+    write!(s, "fn {}({}) -> unit {{ ", name, params.join(", ")).unwrap();
+    let scrut = if m.cols.len() == 1 { "s0".to_string() } else { format!("({})", (0..m.cols.len()).map(|i| format!("s{}", i)).collect::<Vec<_>>().join(", ")) };
+    write!(s, "match {} {{ ", scrut).unwrap();
+    let mut k = 0;
+    for (i, r) in m.rows.iter().enumerate() {
+        let ps: Vec<String> = r.iter().map(|p| fresh_vars(p, &mut k)).collect();
+        let pat = if ps.len() == 1 { ps[0].clone() } else { format!("({})", ps.join(", ")) };
+        let mut msg = format!("\"{}.{}\"", name, i);
+        for v in printable_vars(&pat) {
+            msg = format!("{} + \" \" + {}", msg, v);
+        }
+        write!(s, "{} => string_println({}), ", pat, msg).unwrap();
+    }
+    if total {
+        write!(s, "_ => string_println(\"{}.none\"), ", name).unwrap();
+    }
+    write!(s, "}} }}\n").unwrap();
+    s
+}
+
+fn calls(name: &str, m: &Matrix, rng: &mut Rng) -> String {
+    let mut s = String::new();
+    let v0 = values(m.cols[0]);
+    if m.cols.len() == 1 {
+        for v in v0 {
+            write!(s, "let _ = {}({}); ", name, v).unwrap();
+        }
+    } else {
+        let v1 = values(m.cols[1]);
+        let mut all: Vec<(usize, usize)> = (0..v0.len()).flat_map(|i| (0..v1.len()).map(move |j| (i, j))).collect();
+        while all.len() > 12 {
+            let k = rng.below(all.len());
+            all.remove(k);
+        }
+        for (i, j) in all {
+            write!(s, "let _ = {}({}, {}); ", name, v0[i], v1[j]).unwrap();
         }
     }
     s
@@ -487,12 +585,12 @@ fn gen_small(args: &util::Args, out: &mut Out, stats: &mut BTreeMap<String, usiz
     let thorough = args.tier == "thorough";
     let mut rng = Rng::new(args.seed).fork(0x06);
     let mut ms: Vec<Matrix> = Vec::new();
-    let budget1 = if thorough { 14000 } else { 420 };
+    let budget1 = if thorough { 14000 } else { 1500 };
     for t in COL_TYPES {
         one_col(t, 3, budget1, &mut rng, &mut ms, stats);
     }
     // two columns (the scrutinee is a tuple expression, so it goes through `mtmp`)
-    let n2 = if thorough { 60000 } else { 2200 };
+    let n2 = if thorough { 250000 } else { 8000 };
     for _ in 0..n2 {
         let c0 = *rng.pick(&COL_TYPES);
         let c1 = *rng.pick(&COL_TYPES);
@@ -505,7 +603,7 @@ fn gen_small(args: &util::Args, out: &mut Out, stats: &mut BTreeMap<String, usiz
     }
     *stats.entry("2col:sampled".into()).or_default() += n2;
     // destructuring lets
-    let nl = if thorough { 3000 } else { 300 };
+    let nl = if thorough { 6000 } else { 600 };
     for _ in 0..nl {
         let c0 = *rng.pick(&COL_TYPES);
         let p0 = pats(c0, 2);
@@ -530,6 +628,46 @@ fn gen_small(args: &util::Args, out: &mut Out, stats: &mut BTreeMap<String, usiz
         }
     }
     let _ = std::fs::remove_dir_all(&dir);
+
+    // whole-pipeline stream: the same matrices as runnable programs, every stage dumped for the
+    // stage-wise oracle (Core behaviour must survive mono / lift / ANF / Go)
+    let mut pipe = String::new();
+    let np = if thorough { 3000 } else { 400 };
+    let dirp = util::scratch_dir("c06p");
+    let cands: Vec<&Matrix> = ms.iter().filter(|m| !m.as_let).collect();
+    let mut n_ok = 0usize;
+    for pi in 0..np {
+        // one program in four holds a single matrix without the added catch-all (it may stop at `missing`)
+        let raw = pi % 4 == 3;
+        let count = if raw { 1 } else { 12 };
+        let mut src = String::from(HEADER);
+        let mut body = String::new();
+        for k in 0..count {
+            let m = cands[rng.below(cands.len())];
+            let name = format!("f{}", k);
+            src.push_str(&render_runnable(&name, m, !raw));
+            body.push_str(&calls(&name, m, &mut rng));
+        }
+        writeln!(src, "fn main() -> unit {{ {}() }}", body).unwrap();
+        let id = format!("pipe:{}:{}{}", args.seed, pi, if raw { ":raw" } else { "" });
+        match util::compile_text(&dirp, &src) {
+            util::Outcome::Ok(c) => {
+                n_ok += 1;
+                writeln!(pipe, "{}\tEXPECT\tnone\t", id).unwrap();
+                writeln!(pipe, "{}\tSRC\t{}", id, crate::sexp::esc_line(&src)).unwrap();
+                crate::c01::dump_case(&id, &c, &mut pipe);
+                emit_program(out, &id, &c.tast, &c.genv, Some(&src));
+            }
+            util::Outcome::Err(stage, msgs) => {
+                writeln!(pipe, "{}\tREJECT\t{}\t{}\t{}", id, stage, crate::sexp::esc_line(&msgs.join(" | ")), crate::sexp::esc_line(&src)).unwrap()
+            }
+            util::Outcome::Panic(m) => writeln!(pipe, "{}\tPANIC\t{}\t{}", id, crate::sexp::esc_line(&m), crate::sexp::esc_line(&src)).unwrap(),
+        }
+    }
+    *stats.entry("pipeline-programs".into()).or_default() += n_ok;
+    let _ = std::fs::remove_dir_all(&dirp);
+    let _ = std::fs::create_dir_all(&args.out);
+    std::fs::write(args.out.join("c06pipe.cases.tsv"), pipe).unwrap();
 }
 
 // ---------------------------------------------------------------- main
@@ -587,7 +725,7 @@ pub fn main(args: &util::Args) {
         gen_small(args, &mut out, &mut stats);
     }
     if only == "all" || only == "prog" {
-        let total = args.n.unwrap_or(if args.tier == "thorough" { 1500 } else { 150 });
+        let total = args.n.unwrap_or(if args.tier == "thorough" { 3000 } else { 300 });
         let dir = util::scratch_dir("c06p");
         let path = dir.join("main.gom");
         let mut feats_total: BTreeMap<&'static str, usize> = Default::default();
